@@ -93,10 +93,26 @@ def gen(rng, k):
         else:
             body = inject(rng, body or "b", 1)
     cont = rng.choice(["dict", "dict", "hhd"])
+    body_kind = "str"
+    if body is not None and entry != "h2":
+        c_ = rng.random()
+        if c_ < 0.12:
+            # the caller frames the message itself: its line is the only framing line there may be
+            try:
+                headers.append([rng.choice(["Content-Length", "content-length", "CONTENT-LENGTH"]), str(len(body.encode("utf-8")))])
+            except UnicodeEncodeError:
+                pass
+        elif c_ < 0.18:
+            headers.append([rng.choice(["Transfer-Encoding", "transfer-encoding"]), "chunked"])
+        # the same characters handed over in other shapes: bytes, or pieces (empty ones included, as str or bytes)
+        body_kind = rng.choice(["str", "str", "str", "bytes", "iter_str", "iter_mixed"])
     if cont == "dict":
         seen = set()
         headers = [h for h in headers if not (h[0] in seen or seen.add(h[0]))]
     sc = {"property": ID, "entry": entry, "method": method, "path": path, "headers": headers, "container": cont, "body": body, "hostile": nh}
+    if body_kind != "str":
+        sc["body_kind"] = body_kind
+        sc["body_cuts"] = sorted(rng.randrange(0, len(body) + 1) for _ in range(rng.choice([1, 2, 3])))
     if entry in ("h2", "pool", "pm"):
         sc["second"] = rng.random() < 0.5
     if entry in ("pool", "pm") and rng.random() < 0.3:
@@ -142,6 +158,19 @@ def _mk_headers(sc):
     return {k: v for k, v in sc["headers"]}
 
 
+def _mk_body(sc):
+    body, kind = sc["body"], sc.get("body_kind", "str")
+    if body is None or kind == "str":
+        return body
+    if kind == "bytes":
+        return body.encode("utf-8", "surrogatepass")
+    cuts = [0] + [min(c, len(body)) for c in sc.get("body_cuts") or []] + [len(body)]
+    pieces = [body[a:b] for a, b in zip(cuts, cuts[1:])]  # equal cut points give empty pieces
+    if kind == "iter_mixed":
+        pieces = [p_.encode("utf-8", "surrogatepass") if i % 2 else p_ for i, p_ in enumerate(pieces)]
+    return iter(pieces)
+
+
 def _latin(s: str):
     try:
         return s.encode("latin-1")
@@ -163,7 +192,7 @@ def run(sc: dict) -> Result:
     w = W.World(wsc)
     w.default_listener = H.origin_factory()
     hdrs = _mk_headers(sc)
-    body = sc["body"]
+    body = _mk_body(sc)
     method, path = sc["method"], sc["path"]
     holder = {"obj": None}
     with H.RunEnv(), H.quiet_warnings(), w:
@@ -375,10 +404,8 @@ def check_request(sc, req, res, entry):
         else:
             res.probes["json_body_checked"] += 1
     elif sc["body"] is not None:
-        want = sc["body"].encode("utf-8")
-        if "content-length" in keys or "transfer-encoding" in keys:
-            pass
-        elif req["body"] != want:
+        want = sc["body"].encode("utf-8", "surrogatepass")
+        if req["body"] != want:
             res.bad("body_altered", f"sent {req['body'][:80]!r}, requested {want[:80]!r}")
         else:
             res.probes["body_checked"] += 1
@@ -514,6 +541,12 @@ def shrinks(sc):
     if sc["body"] is not None:
         c = copy.deepcopy(sc)
         c["body"] = None
+        c["headers"] = [h for h in c["headers"] if h[0].lower() not in ("content-length", "transfer-encoding")]
+        c.pop("body_kind", None)
+        yield c
+    if sc.get("body_kind"):
+        c = copy.deepcopy(sc)
+        del c["body_kind"]
         yield c
     for fld, simple in (("method", "GET"), ("path", "/"), ("container", "dict")):
         if sc[fld] != simple:
